@@ -131,9 +131,9 @@ class Pruner:
     """drops alternatives whose guard is unsatisfiable under the constraints collected so far (incremental SAT).
     Needed because the merged state applies every operation to every alternative, creating values no schedule can produce."""
     def __init__(s):
-        s.S = None; s.nd = 0; s.na = 0; s.calls = 0; s.dropped = 0; s.time = 0.0; s.assumes = None; s.enabled = True; s.budget = 60.0; s.at = PRUNE_AT
+        s.S = None; s.nd = 0; s.na = 0; s.calls = 0; s.dropped = 0; s.time = 0.0; s.assumes = None; s.enabled = True; s.budget = 60.0; s.at = PRUNE_AT; s.cache = {}; s.hits = 0
     def reset(s, assumes):
-        s.S = z3.SolverFor('QF_FD'); s.S.set('timeout', 5000); s.nd = 0; s.na = 0; s.assumes = assumes; s.calls = 0; s.dropped = 0; s.time = 0.0
+        s.S = z3.SolverFor('QF_FD'); s.S.set('timeout', 5000); s.nd = 0; s.na = 0; s.assumes = assumes; s.calls = 0; s.dropped = 0; s.time = 0.0; s.cache = {}; s.hits = 0
     def sat(s, g):
         import time as _t
         t0 = _t.process_time()
@@ -156,11 +156,16 @@ class Pruner:
     def prune(s, d):
         if s.S is None or not s.enabled or s.time > s.budget: return d
         out = {}
+        na = len(s.assumes)
         for k, (g, v) in d.items():
             if isinstance(g, bool): out[k] = (g, v); continue
             g = name(g)
-            if z3.is_not(g): g = name(gand(g, g)) if False else g
-            if s.sat(g): out[k] = (g, v)
+            # verdicts are cached per guard: "unsatisfiable" is final (constraints only grow); "satisfiable" is reused until a new
+            # global assumption arrives
+            c = s.cache.get(_aid(g))
+            if c is not None and (c[0] is False or c[1] == na): r = c[0]; s.hits += 1
+            else: r = s.sat(g); s.cache[_aid(g)] = (r, na)
+            if r: out[k] = (g, v)
             else: s.dropped += 1
         return out
 pruner = Pruner()
